@@ -66,6 +66,7 @@ type callPattern struct {
 	recvCap     string // capture name of the receiver (T($r).M(...))
 	recvCapType string
 	recvCapSuffix string
+	recvIfaceName string // static interface type of the receiver expression (full path)
 }
 
 type EffectClause struct {
@@ -418,6 +419,7 @@ func (lc *lowerCtx) lowerEffects(fc *FuncContract, body *strings.Builder, checkP
 					if it, ok := rt.Underlying().(*types.Interface); ok {
 						// interface receiver: invoke pattern
 						p.iface = it
+						p.recvIfaceName = types.TypeString(rt, nil)
 						p.recvFunc = fmt.Sprintf("verif_effrecv_%d_%d_%s", k, pi, base)
 						names := lc.usedNames(rex)
 						ps, err := lc.paramList(names, "requires", nil)
@@ -646,6 +648,10 @@ func (e *Engine) matchPattern(sp *ssa.Package, p *callPattern, ev Event, prov fu
 		}
 	} else {
 		if ev.Static != nil || ev.Iface == "" {
+			return nil, false
+		}
+		// a call through a value of another interface type is not a call on this receiver expression
+		if p.recvIfaceName != "" && p.recvSrc != "_" && ev.Iface != p.recvIfaceName {
 			return nil, false
 		}
 		if p.method != "" && ev.Callee != p.method {
